@@ -993,6 +993,112 @@ pub mod verif_hooks {
             max_iop_size,
         }
     }
+
+    /// Probe over the private `IoQueue`: every method is the real push / next_task / on_iop_complete /
+    /// on_bytes_consumed / close, plus read-only views of `IoQueueState`.  Tasks are identified by the
+    /// start of their range.
+    pub struct QueueProbe {
+        queue: Arc<IoQueue>,
+        reader: Arc<dyn Reader>,
+        finished: Arc<Mutex<Vec<(u64, bool)>>>,
+    }
+
+    /// A task handed out by [`QueueProbe::next_task`]
+    pub struct ProbeTask(IoTask);
+
+    impl ProbeTask {
+        pub fn to_read(&self) -> Range<u64> {
+            self.0.to_read.clone()
+        }
+
+        pub fn priority(&self) -> u128 {
+            self.0.priority
+        }
+
+        pub fn num_bytes(&self) -> u64 {
+            self.0.num_bytes()
+        }
+
+        /// Invoke the task's completion callback without doing any I/O
+        pub fn complete(self, ok: bool) {
+            if ok {
+                (self.0.when_done)(Ok(Bytes::new()))
+            } else {
+                self.0.cancel()
+            }
+        }
+    }
+
+    impl QueueProbe {
+        pub fn new(io_capacity: u32, io_buffer_size: u64, reader: Arc<dyn Reader>) -> Self {
+            Self {
+                queue: Arc::new(IoQueue::new(io_capacity, io_buffer_size)),
+                reader,
+                finished: Arc::new(Mutex::new(Vec::new())),
+            }
+        }
+
+        /// `IoQueue::push` of a task whose callback records (range start, completed with data)
+        pub fn push(&self, to_read: Range<u64>, priority: u128) {
+            let finished = self.finished.clone();
+            let id = to_read.start;
+            self.queue.push(IoTask {
+                reader: self.reader.clone(),
+                to_read,
+                priority,
+                when_done: Box::new(move |data| finished.lock().unwrap().push((id, data.is_ok()))),
+            });
+        }
+
+        /// `IoQueueState::next_task` (the part of `IoQueue::pop` under the state lock)
+        pub fn next_task(&self) -> Option<ProbeTask> {
+            self.queue.state.lock().unwrap().next_task().map(ProbeTask)
+        }
+
+        pub fn on_iop_complete(&self) {
+            self.queue.on_iop_complete()
+        }
+
+        pub fn on_bytes_consumed(&self, bytes: u64, priority: u128, num_reqs: usize) {
+            self.queue.on_bytes_consumed(bytes, priority, num_reqs)
+        }
+
+        pub fn close(&self) {
+            self.queue.close()
+        }
+
+        pub fn iops_avail(&self) -> u32 {
+            self.queue.state.lock().unwrap().iops_avail
+        }
+
+        pub fn bytes_avail(&self) -> i64 {
+            self.queue.state.lock().unwrap().bytes_avail
+        }
+
+        pub fn done_scheduling(&self) -> bool {
+            self.queue.state.lock().unwrap().done_scheduling
+        }
+
+        /// (priority, range) of every pending task, in heap order
+        pub fn pending(&self) -> Vec<(u128, Range<u64>)> {
+            let state = self.queue.state.lock().unwrap();
+            state
+                .pending_requests
+                .iter()
+                .map(|task| (task.priority, task.to_read.clone()))
+                .collect()
+        }
+
+        pub fn priorities_in_flight(&self) -> Vec<u128> {
+            let state = self.queue.state.lock().unwrap();
+            state.priorities_in_flight.in_flight.clone()
+        }
+
+        /// Completion callbacks that ran since the last call: (range start, completed with data)
+        pub fn take_finished(&self) -> Vec<(u64, bool)> {
+            std::mem::take(&mut *self.finished.lock().unwrap())
+        }
+    }
 }
 
 #[cfg(test)]
